@@ -871,8 +871,11 @@ HLgetdatainfo(int32 file_id, uint8 *buf, /* IN: special header info */
             link_info = NULL;
         }
         /* Get next block table */
-        if (next_ref != 0)
+        if (next_ref != 0) {
             link_info = HLIgetlink(file_id, next_ref, num_blocks);
+            if (link_info == NULL) /* the table exists but could not be read */
+                HGOTO_ERROR(DFE_INTERNAL, FAIL);
+        }
     } /* while there are more linked-block tables and the offset/length arrays
          are not full yet */
 
